@@ -979,9 +979,25 @@ impl Scenario for Conc {
                                 *g += 1;
                                 *g
                             };
-                            regions.push(mk_ctl(gen));
-                            regions.sort_by_key(|r| r.start_addr());
-                            let nm = Map::from_arc_regions(regions).unwrap();
+                            // the new map is either built from the list of regions or derived from the
+                            // current one step by step with the hot-plug operations themselves
+                            let nm = if cx().b(2) == 0 {
+                                regions.push(mk_ctl(gen));
+                                regions.sort_by_key(|r| r.start_addr());
+                                Map::from_arc_regions(regions).unwrap()
+                            } else {
+                                cx().count("probe.map_derived_by_insert_and_remove");
+                                let mut m: Map = (*cur).clone();
+                                if had {
+                                    let l = m.find_region(GuestAddress(base)).unwrap().len();
+                                    m = m.remove_region(GuestAddress(base), l).unwrap().0;
+                                } else {
+                                    m = m.insert_region(regions.pop().unwrap()).unwrap();
+                                }
+                                let cl = m.find_region(GuestAddress(0)).unwrap().len();
+                                m = m.remove_region(GuestAddress(0), cl).unwrap().0;
+                                m.insert_region(mk_ctl(gen)).unwrap()
+                            };
                             let (nlist, _) = observe(&nm);
                             drop(cur);
                             guard.replace(nm);
